@@ -884,9 +884,13 @@ def rule_gentab(run):
     def type_tests(fi):
         out = None
         for n in walk_no_nested(fi.node):
-            if not isinstance(n, ast.If): continue
+            if not isinstance(n, (ast.If, ast.IfExp)): continue
             names = set(x.id for x in ast.walk(n.test) if isinstance(x, ast.Name)) | set(x.attr for x in ast.walk(n.test) if isinstance(x, ast.Attribute))
             if 'ltab' not in names: continue
+            if isinstance(n, ast.If) and len(n.body) == 1 and isinstance(n.body[0], ast.If) and not n.orelse and not n.body[0].orelse and \
+               not any(isinstance(x, (ast.Name, ast.Attribute)) and 'type' in norm(x).lower() for x in ast.walk(n.test)):
+                # `if ltab: if <type test>:` is the conjunction
+                n = ast.copy_location(ast.If(test=ast.BoolOp(op=ast.And(), values=[n.test, n.body[0].test]), body=n.body[0].body, orelse=[]), n)
             tests = set()
             def atoms(t, pos):
                 if isinstance(t, ast.UnaryOp) and isinstance(t.op, ast.Not): atoms(t.operand, not pos); return
